@@ -173,7 +173,8 @@ Proof.
                        Rr r2 (pre ++ resizeL (if B =? 0 then skipn (Z.to_nat A) regs
                                               else resizeL (skipn (Z.to_nat A) regs) (B - 1)) n) lim) as (r2 & Q2 & HR2).
     { destruct ((B >? 1) && (n >? B - 1)) eqn:E.
-      - destruct (FillNil_ok r1 _ lim (len pre + B - 1) (n - (B - 1)) HR1) as (r2 & Q2 & HR2); rd_norm; unfold resizeL; rd_norm; try lia.
+      - assert (Hlen1 : len (pre ++ resizeL (skipn (Z.to_nat A) regs) n) = len pre + n) by (unfold resizeL; rd_norm; lia).
+        destruct (FillNil_ok r1 _ lim (len pre + B - 1) (n - (B - 1)) HR1) as (r2 & Q2 & HR2); try lia.
         exists r2. split; [exact Q2|]. destruct (B =? 0) eqn:E0; [lia|].
         replace (pre ++ resizeL (resizeL (skipn (Z.to_nat A) regs) (B - 1)) n)
           with (fillNilL (pre ++ resizeL (skipn (Z.to_nat A) regs) n) (len pre + B - 1) (n - (B - 1))); [exact HR2|].
